@@ -90,6 +90,19 @@ pub fn run(ctx: &mut Ctx) {
         view_case(ctx, &c, "mid-signing");
         for _ in 0..3 { c.exec(&TOp::Submit(true), &mut rng_c); }
         view_case(ctx, &c, "ready");
+        // restore exactly at the response-ready boundary (the prepared answer of three documents is several kilobytes):
+        // the restored session must hand out the same bytes, once
+        {
+            let mut a2 = c.fork();
+            let mut b2 = c.fork();
+            let mut r1 = rng_c.clone();
+            let mut r2 = rng_c.clone();
+            let restored = b2.exec(&TOp::RestoreDev, &mut r2).1;
+            for op in [TOp::Ready, TOp::Retrieve, TOp::Ready, TOp::Retrieve] { a2.exec(&op, &mut r1); b2.exec(&op, &mut r2); }
+            let same = a2.raw == b2.raw && a2.dev.stringify().ok() == b2.dev.stringify().ok() && restored.as_array().and_then(|a| a.first()).map(diag) == Some(diag(&arr(vec![uint(6)])));
+            let size = match dev_view(&c.dev).1 { StateView::Ready(b) => b.len(), _ => 0 };
+            ctx.case("differential_ready", json!({"response_bytes": size, "restore": diag(&restored)}), ciborium::Value::Bool(same), None, Some(("c14.spec_same", vec![])), true);
+        }
         ctx.rng = rng;
     }
     // a device session holding reader trust anchors: a reader-authenticated request handled by the session object
